@@ -12,15 +12,17 @@
     `exit_succeeds` / `claim_succeeds`: in every reachable state a holder's `exitFarm` / `claimRewards`
     can only fail INSIDE the weekly-rewards module (boosted claim, energy clearing) — every other
     guard and checked subtraction of the endpoints is discharged from the invariants.
-    NOT TRUE in full: the per-week subtraction `remainingBoostedRewardsToDistribute(week) −= reward`
-    of `get_user_rewards_for_week` CAN underflow in a reachable state, which makes every operation of
-    the affected user fail (also `exitFarm`: the principal is not withdrawable until the week leaves
-    the four-week claim window).  `no_underflow_full_false` proves that on a concrete 10-operation
-    history (replayed on the real contracts: corpus/farm/f6_late_config_underflow.ops, same failures).
+    IN FULL (`no_underflow_full`): stated, not proved.  The per-week subtraction
+    `remainingBoostedRewardsToDistribute(week) −= reward` of `get_user_rewards_for_week` COULD underflow
+    in a reachable state before the repair of finding F6 (late first `setBoostedYieldsFactors`;
+    corpus/farm/f6_late_config_underflow.ops).  The repaired `claim_boosted_yields_rewards` advances
+    the claim progress also when no config exists; `f6_history_repaired` shows the same history now
+    succeeds (and it replays clean on the real repaired contracts).
 
   The hypothesis under which the weekly subtraction is safe is `WeekBudget` (Lemmas/FarmWeekSafe.lean):
   `weekly_sub_safe_under_budget`, `week_budget_init_mono`; its energy half holds in every reachable
-  state (`week_budget_energy_half`), its position half `Σ f ≤ F` is what the counter-example breaks.
+  state (`week_budget_energy_half`), its position half `Σ f ≤ F` is what the F6 counter-example broke
+  (restored by the repair; see Props/C05Budget.lean).
 
   Hypotheses of the run-level theorems: `users.Nodup` (distinct accounts — `PosInv`) and `dsc ≠ 0`
   (the division safety constant; with `dsc = 0` every base reward is `x / 0 = 0`).
@@ -230,23 +232,34 @@ example :
     (step s (.claim 1 none [(2, 100000000)])).isSome = true := by
   decide
 
-/-! ### no_underflow in full is FALSE: the weekly pool subtraction -/
+/-! ### no_underflow in full: the weekly pool subtraction (finding F6, repaired) -/
 
 /-- the full clause: in every reachable state of an active farm, whoever holds (part of) a position
-    can exit with it — no internal counter stands in the way -/
+    can exit with it — no internal counter stands in the way.
+    STATUS: stated, NOT proved in full.  Before the repair of F6 it was false
+    (`¬ no_underflow_full` was a theorem here, by `decide` on `cxOps`).  With the repair the
+    counter-example is gone (`f6_history_repaired`, `no_underflow_full_on_f6`), every reserve-side
+    counter is proved safe (above), `exit_succeeds` reduces the clause to the two calls into the
+    weekly-rewards module, and the week budget that makes the per-week subtraction safe is proved
+    in its energy half (`week_budget_energy_half`) and its position half (Props/C05Budget.lean);
+    what is still missing for the full clause is listed in notes/f6fix.md. -/
 def no_underflow_full : Prop :=
   ∀ (kind : Kind) (same : Bool) (dsc pb : Nat) (produce : Bool) (users : List Nat) (e0 : Nat)
     (ops : List Op), users.Nodup → dsc ≠ 0 →
     let s := run (init kind same dsc pb produce users e0) ops
     ∀ u n a, u ∈ s.users → s.active = true → a ≠ 0 → a ≤ s.hold u n → (exitFarm s u none n a).isSome
 
-/-- The history of the counter-example (corpus/farm/f6_late_config_underflow.ops, ops 1–10).  Boosted
+/-- The history of finding F6 (corpus/farm/f6_late_config_underflow.ops, ops 1–10).  Boosted
     percentage 25 % but NO boosted-yields factors yet.  User 1 (with energy) farms 1 token through
     week 1 (10 blocks settled: week 1's pool = 2500, `farmSupplyForWeek 1 = 1`).  In week 2 user 2
-    enters 1000 and sends the position to user 1, who claims with it: without a config the boosted
-    claim returns early — user 1's claim progress stays at week 1 — but `userTotalFarmPosition(1)`
+    enters 1000 and sends the position to user 1, who claims with it: `userTotalFarmPosition(1)`
     becomes 1001.  Then the owner sets the FIRST factors; `BoostedYieldsConfig::new` fills all five
-    slots, so week 1 becomes claimable under them. -/
+    slots, so week 1 becomes claimable under them.
+    Before the repair the boosted claim without a config returned early and user 1's claim progress
+    stayed at week 1: week 1 was then evaluated with position 1001 against the recorded supply 1,
+    `remaining − reward` underflowed and every operation of user 1 failed.  The repaired code
+    (`update_energy_and_progress` in the `None` branch) moves the progress to week 2 in op 9,
+    BEFORE the total grows. -/
 def cxOps : List Op :=
   [.setPct OWNER 2500, .setEnergy 1 1000000 0 1000, .enter 1 none 1 [], .advance 10 6,
    .claim 1 none [(1, 1)], .advance 10 7, .enter 2 none 1000 [], .transfer 2 1 3 1000,
@@ -254,33 +267,38 @@ def cxOps : List Op :=
 
 def cxState : St := run (init .mint false 1000000000000 1000 true [1, 2] 0) cxOps
 
-/-- In that reachable state user 1 holds position 4 (1000 tokens) in an active farm and the reserve
-    (2500) covers week 1's pool (2500) — yet week 1's reward for user 1 is computed as
-    `min ⌊10·2500·1001/1⌋ ⌊(⌊2500·3·e/E⌋ + ⌊2500·2·1001/1⌋)/5⌋ = 1 002 500 > 2500`
-    (current position 1001 against week 1's recorded supply 1), the weekly `remaining − reward`
-    underflows, and EVERY operation of user 1 fails: claim, exit (principal not withdrawable), enter,
-    merge, claimBoostedRewards — until week 1 leaves the claim window (week 6). -/
-theorem weekly_pool_underflow_example :
+/-- **the F6 history now succeeds.**  Same reachable state as in the finding (user 1 holds position 4
+    = 1000 tokens in an active farm, total position 1001, week 1's pool 2500 with recorded supply 1,
+    current week 2, factors just set for the first time) — but user 1's claim progress is at week 2
+    (moved by the claim of op 9, when no config existed), so week 1 is not evaluated with the grown
+    position: the boosted claim succeeds and pays 0, and EVERY operation of user 1 that used to fail
+    succeeds: claim, exit (principal withdrawable), claimBoostedRewards, enter, merge.  (On the real
+    repaired contracts: the corpus history replays without `no_legit_failure`.) -/
+theorem f6_history_repaired :
     let s := cxState
     s.hold 1 4 = 1000 ∧ s.active = true ∧ s.reserve = 2500 ∧ s.b.accum 1 = 2500 ∧
     s.userTotal 1 = 1001 ∧ s.b.farmSupplyWeek 1 = 1 ∧ s.week = some 2 ∧
-    boostedAmount ⟨10, 3, 2, 1, 1⟩ 2500 1001 1 1000000 1000000 = 1002500 ∧
-    claimBoostedYields s 1 = none ∧
-    step s (.claim 1 none [(4, 1000)]) = none ∧
-    step s (.exit 1 none 4 1000) = none ∧
-    step s (.claimBoosted 1 none) = none ∧
-    step s (.enter 1 none 5 []) = none ∧
-    step s (.merge 1 none [(4, 1000), (2, 1)]) = none ∧
-    -- other users are not affected
+    (s.w.progress 1).map (·.week) = some 2 ∧
+    (claimBoostedYields s 1).map (·.2) = some 0 ∧
+    (step s (.claim 1 none [(4, 1000)])).isSome = true ∧
+    (step s (.exit 1 none 4 1000)).isSome = true ∧
+    (step s (.claimBoosted 1 none)).isSome = true ∧
+    (step s (.enter 1 none 5 [])).isSome = true ∧
+    (step s (.merge 1 none [(4, 1000), (2, 1)])).isSome = true ∧
     (step s (.enter 2 none 5 [])).isSome = true := by
   decide
 
-/-- **the full no-underflow clause does not hold** (model; confirmed on the real contracts) -/
-theorem no_underflow_full_false : ¬ no_underflow_full := by
-  intro h
-  have h1 := h .mint false 1000000000000 1000 true [1, 2] 0 cxOps (by decide) (by decide)
-    1 4 1000 (by decide) (by decide) (by decide) (by decide)
-  revert h1
+/-- the instance of `no_underflow_full` that the finding refuted now holds: in the F6 state every
+    holder of every position can exit with all of it -/
+theorem no_underflow_full_on_f6 :
+    let s := cxState
+    (exitFarm s 1 none 4 1000).isSome = true ∧ (exitFarm s 1 none 2 1).isSome = true := by
+  decide
+
+/-- the pre-repair arithmetic, kept for the record: week 1 evaluated with position 1001 against the
+    recorded supply 1 would give `min ⌊10·2500·1001/1⌋ ⌊(⌊2500·3·e/E⌋ + ⌊2500·2·1001/1⌋)/5⌋ = 1 002 500 > 2500` -/
+theorem f6_unrepaired_reward_exceeds_pool :
+    boostedAmount ⟨10, 3, 2, 1, 1⟩ 2500 1001 1 1000000 1000000 = 1002500 := by
   decide
 
 /-! ### the hypothesis under which the weekly subtraction IS safe -/
@@ -306,7 +324,8 @@ theorem weekly_sub_fails_iff (mem : BCfg) (f : Nat) (g : Weekly.St) (c : BSt) (w
 /-- a user whose total farm position is within the week's recorded supply (`f ≤ F`) and whose energy
     is within the week's total (`e ≤ E`) is never paid more than the week's whole pool `R` — so the
     FIRST payment out of a freshly frozen week (`remaining = R`) cannot underflow.
-    (`f ≤ F` is what fails in `weekly_pool_underflow_example`: `1001 > 1`.) -/
+    (`f ≤ F` is what failed in finding F6: `1001 > 1`; it holds for every claimer in every reachable
+    state of the repaired farm, Props/C05Budget.lean `claimer_position_le_week_supply`.) -/
 theorem single_reward_le_pool (fa : Factors) (R f F e E : Nat) (hc : fa.cE + fa.cF ≠ 0)
     (hf : f ≤ F) (he : e ≤ E) : boostedAmount fa R f F e E ≤ R :=
   boostedAmount_le fa R f F e E hc hf he
@@ -329,10 +348,9 @@ theorem weekly_sub_safe_under_budget {fa : Factors} {R F E paid sumE sumF e f re
 /-- the budget holds when the week is frozen (nothing paid) as soon as `Σ e_v ≤ E` (the weekly
     module's energy bound, Lemmas/WeeklyHist.lean `EB`) and `Σ f_v ≤ F` (the claimers' current total
     positions are within the supply recorded for that week), and it survives claimers dropping out or
-    shrinking.  `Σ f_v ≤ F` is the part the farm does NOT maintain in every reachable state: it
-    relies on every increase of `userTotalFarmPosition(v)` being preceded by a boosted claim that
-    moves `v`'s progress past the week, which `claim_boosted_yields_rewards` skips while no boosted
-    config exists. -/
+    shrinking.  `Σ f_v ≤ F` relies on every increase of `userTotalFarmPosition(v)` being preceded
+    by a boosted claim that moves `v`'s progress past the week — which `claim_boosted_yields_rewards`
+    skipped while no boosted config existed (finding F6) and now always does. -/
 theorem week_budget_init_mono (fa : Factors) (R F E sumE sumF sumE' sumF' : Nat)
     (hE : sumE ≤ E) (hF : sumF ≤ F) (hE' : sumE' ≤ sumE) (hF' : sumF' ≤ sumF) :
     WeekBudget fa R F E 0 sumE sumF ∧ WeekBudget fa R F E 0 sumE' sumF' :=
@@ -351,8 +369,8 @@ theorem week_budget_energy_half (kind : Kind) (same : Bool) (dsc pb : Nat) (prod
       (s.w.users.map fun u => Weekly.eForP s.w.progress u w).sum ≤ s.w.totalEnergy w :=
   (reachable_winv kind same dsc pb produce users e0 ops).2 w
 
-/-- in the counter-example state the budget of week 1 is violated by user 1 alone (position 1001
-    against a recorded supply of 1) -/
+/-- with the pre-repair progress (user 1 still a claimer of week 1) the budget of week 1 would be
+    violated by user 1 alone (position 1001 against a recorded supply of 1) -/
 example : ¬ WeekBudget ⟨10, 3, 2, 1, 1⟩ 2500 1 1000000 0 1000000 1001 := by
   unfold WeekBudget; decide
 
